@@ -905,7 +905,7 @@ def config_tie(chk, wd):
     for au in (0, 1):
         for ar in (0, 1, 2):
             grid.append(dict(autostart=au, autorestart=ar))
-    for ec in ([0], [0, 2], [1], [255], [2, 3, 4]):
+    for ec in ([0], [0, 2], [1], [255], [2, 3, 4], []):
         grid.append(dict(exitcodes=ec))
     for sig in sorted(SIGNAME):
         for sw in (0, 1, 10):
@@ -916,7 +916,7 @@ def config_tie(chk, wd):
         grid.append(dict(priority=pr))
     for _ in range(60):
         grid.append(dict(startsecs=rng.choice([0, 1, 7]), startretries=rng.choice([0, 2, 9]), autostart=rng.choice([0, 1]),
-                         autorestart=rng.choice([0, 1, 2]), exitcodes=rng.choice([[0], [3, 4]]), stopsignal=rng.choice(sorted(SIGNAME)),
+                         autorestart=rng.choice([0, 1, 2]), exitcodes=rng.choice([[0], [3, 4], []]), stopsignal=rng.choice(sorted(SIGNAME)),
                          stopwaitsecs=rng.choice([0, 3]), priority=rng.choice([0, 5])))
     lines = ['[supervisord]', '']
     for k, g in enumerate(grid):
